@@ -46,6 +46,8 @@ type Prop struct {
 	NoOverlay      bool                  // harness files are real files of a scratch module
 	Variants       []*Prop               // sub-checks (e.g. generator configurations) run one after the other; results are merged
 	Label          string                // variant label
+	ExtraNative    map[string]string // native test cases: case name -> Go expression of type string
+	Custom      func(r *runner, ev *evidence, pool *gosym.Pool) int // property specific deciding step (replaces the harness loop)
 	QuickBudget    time.Duration
 	ThoroughBudget time.Duration
 }
@@ -396,6 +398,10 @@ func (r *runner) run1(ev *evidence) int {
 		r.logf("concrete differential: %d functions agree natively and in the engine", n)
 	}
 
+	if spec.Custom != nil {
+		cov["traces_validated_against_impl"] = validated
+		return spec.Custom(r, ev, pool)
+	}
 	budget := spec.QuickBudget
 	if r.tier == "thorough" {
 		budget = spec.ThoroughBudget
@@ -623,6 +629,7 @@ func (r *runner) buildTestBinary() error {
 	var sb strings.Builder
 	mod := modulePath(r.dir)
 	fmt.Fprintf(&sb, "package %s\n\nimport (\n\t\"fmt\"\n\t\"os\"\n\t\"testing\"\n\tzzrt \"%s/internal/zzverifrt\"\n)\n\n", r.pkgName, mod)
+	sb.WriteString("var _ = zzrt.Run\n\n")
 	sb.WriteString("func TestZZVerifNative(t *testing.T) {\n\tswitch os.Getenv(\"ZZVERIF_CASE\") {\n")
 	for _, h := range spec.Harnesses {
 		tuples := append(append([][]int64{}, h.Quick...), h.Thorough...)
@@ -642,6 +649,9 @@ func (r *runner) buildTestBinary() error {
 			}
 			fmt.Fprintf(&sb, "\tcase %q:\n\t\tfmt.Println(\"ZZREPLAY-OUTCOME:\", zzrt.Run(%q, func() { %s(%s) }))\n", key, h.Func, h.Func, strings.Join(as, ", "))
 		}
+	}
+	for name, expr := range spec.ExtraNative {
+		fmt.Fprintf(&sb, "\tcase %q:\n\t\tfmt.Println(\"ZZNATIVE-RESULT:\", %s)\n", name, expr)
 	}
 	sb.WriteString("\tcase \"diff\":\n")
 	for _, d := range spec.Diff {
